@@ -45,11 +45,12 @@ ASSUMPTIONS = [
 THEOREM_CLASSES = {
     "C08_cache_fresh": "main",
     "C08_expected_is_nocache_run": "main",
-    "C08_source_and_option_edits_show_in_text": "definitional",
+    "C08_source_and_option_edits_show_in_text": "main",
     "C08_cincdir_header_edits_fresh": "main",
     "C08_header_hash_needed": "refutation",
     "C08_cache_fresh_all_world_edits_refuted": "refutation",
-    "C08_cflags_and_release_change_command": "corollary",
+    "C08_cflags_ldflags_release_change_command": "corollary",
+    "C08_heading_must_cover_link_options": "refutation",
     "C08_cache_fresh_general_policy": "corollary",
     "C08_sufficient_policy": "corollary",
     "C08_strict_compare_needed": "refutation",
@@ -80,7 +81,10 @@ W_SHARED_OUT = "R:0:0:0:0:0:0:0:0 A:30 R:1:0:1:0:0:0:0:0 A:30 R:0:0:0:0:0:0:0:0"
 W_HEADER_EDIT = "R:0:-:0:0:0:0:0:11 R:0:-:0:0:10:0:0:0"
 # world 0 -> 100: edited C header reached only through --cflags -I: the documented remaining limit (open known finding)
 W_HEADER_EDIT_I = "R:0:-:0:0:0:0:0:11 R:0:-:0:0:100:0:0:0"
-WITNESSES = [("same-second", W_SAME_SECOND), ("nocheading", W_NOHEAD), ("shared-output", W_SHARED_OUT), ("header-edit", W_HEADER_EDIT),
+# link options only (--ldflags directory / LDFLAGS environment): the binary strictly newer than the C file
+W_LDFLAGS = "R:0:-:0:0:0:0:0:11 R:0:-:0:1000:0:0:0:0"
+W_LDFLAGS_ENV = "R:0:-:0:0:0:0:0:11 R:0:-:0:2000:0:0:0:0"
+WITNESSES = [("ldflags", W_LDFLAGS), ("LDFLAGS-env", W_LDFLAGS_ENV), ("same-second", W_SAME_SECOND), ("nocheading", W_NOHEAD), ("shared-output", W_SHARED_OUT), ("header-edit", W_HEADER_EDIT),
              ("header-edit-cflags-I", W_HEADER_EDIT_I)]
 
 
@@ -176,6 +180,16 @@ def _gen(ctx, problems):
            "(* ticks per second used by the replayer; mtimes are whole seconds (lfs st_mtime) *)\n"
            "Definition TPS : Z := %d%%Z.\n" % (b(p_le), b(p_hash), b(p_size), b(p_reuse_out), b(p_nohead_cache), b(p_del), TPS))
     txt += "(* compile_code hashes the local headers the generated code includes (a repair; false today) *)\nDefinition HEADERS_HASHED : bool := %s.\n" % b(p_hdr_hashed)
+    # tie fact: compile_code records the command compile_binary executes - both build it from the same
+    # get_compiler_cflags(compileopts), nothing appended (comments stripped)
+    mcb = re.search(r"function compiler\.compile_binary\(.*?\nend", cc, re.S)
+    cbody = mcb.group(0) if mcb else ""
+    covers = bool(re.search(r"local cflags = get_compiler_cflags\(compileopts\)[ \t]*\n", code) and
+                  re.search(r"get_compile_args\(cfile, binfile, cflags\)", code) and
+                  re.search(r"local cflags = get_compiler_cflags\(compileopts\)[ \t]*\n", cbody) and
+                  re.search(r"get_compile_args\(cfile, midfile, cflags\)", cbody) and
+                  len(re.findall(r"\bcflags\s*=", cbody)) == 1 and len(re.findall(r"\bcflags\s*=", code)) == 1)
+    txt += "(* compile_code and compile_binary build the command from the same get_compiler_cflags(compileopts) *)\nDefinition HEADING_COVERS_EXECUTED_COMMAND : bool := %s.\n" % b(covers)
     cdefs = vlib.repo_read("lualib/nelua/cdefs.lua")
     gm = re.search(r"compilers_flags\.gcc = tabler\.updatecopy\(compilers_flags\.cc, \{(.*?)\n\}\)", cdefs, re.S)
     rel = re.search(r'cflags_release = "([^"]*)"', gm.group(1)) if gm else None
@@ -188,7 +202,7 @@ def _gen(ctx, problems):
             (coqlist(rel.group(1) if rel else ""), coqlist(dev.group(1) if dev else "")))
     vlib.write_if_changed(os.path.join(vlib.coq_dir(ID), "Gen.v"), txt)
     ctx.genpol = {"p_le": p_le, "p_head_hash": p_hash, "p_size_chk": p_size, "p_reuse_out": p_reuse_out,
-                  "p_nohead_cache": p_nohead_cache, "p_del_rewrite": p_del, "headers_hashed": p_hdr_hashed}
+                  "p_nohead_cache": p_nohead_cache, "p_del_rewrite": p_del, "headers_hashed": p_hdr_hashed, "heading_covers_executed_command": covers}
     return dict(ctx.genpol, cache_guard_conjuncts=outer, reuse_test_conjuncts=inner, gcc_cflags_release=rel.group(1) if rel else None, gcc_cflags_devel=dev.group(1) if dev else None, heading_has_command=p_cmd, mtime_unit="whole seconds (lfs st_mtime)", ticks_per_second=TPS)
 
 
@@ -432,7 +446,7 @@ def gen_history(rng, flavour):
         if c < .40:
             cur["code"] = rng.choice([x for x in range(8) if x != cur["code"]])       # edit main / module / -D / switch source
         elif c < .52:
-            cur["cmd"] = rng.choice([x for x in (0, 1, 2, 100, 101) if x != cur["cmd"]])   # --cflags / --release
+            cur["cmd"] = rng.choice([x for x in (0, 1, 2, 100, 101, 1000, 1001, 2000, 1100) if x != cur["cmd"]])   # --cflags / --release / --ldflags / LDFLAGS
         elif c < .52 + p_cc:
             cur["cc"] = (1 - cur["cc"] % 10) + (cur["cc"] - cur["cc"] % 10)             # compiler behind the name changes
         elif c < .52 + p_cc + p_hdr:
@@ -607,7 +621,7 @@ def correspond(ctx):
 
     dist = {"streams": {}, "decisions": {}, "outcomes": {}, "steps": {"A": 0, "R": 0, "I": 0, "C": 0}}
     nontrivial = set()
-    n_dec_mismatch = n_stale = n_unexplained = n_hyp_checked = 0
+    n_dec_mismatch = n_stale = n_unexplained = n_hyp_checked = n_uncovered = 0
     samples = []
     to_shrink = []
     for (idx, stream, toks, recs, obs), mres in zip(results, mres_all):
@@ -621,6 +635,14 @@ def correspond(ctx):
         if len(mres) != len(recs):
             ctx.violation("harness-run", "harness", "model/implementation step counts differ on %s" % " ".join(toks), failing_input=False)
             continue
+        for r in recs:
+            if r.get("cmd_covered") is False:
+                n_uncovered += 1
+                if n_uncovered <= 2:
+                    ctx.violation("heading-does-not-cover-command", "correspondence",
+                                  "the command compile_binary executed is not the command compile_code recorded in the heading of the C file (modulo the output path): executed `%s`, heading `%s`; the cache key no longer determines the build" %
+                                  (r["executed_cmd"], r["heading_cmd"]),
+                                  detail={"history": " ".join(toks), "step": r["step"], "no_longer_checks": "tie fact: executed command = heading command"}, failing_input=False)
         hyp_prefix = True
         stale_here = False
         for j, (r, m) in enumerate(zip(recs, mres)):
@@ -695,6 +717,7 @@ def correspond(ctx):
         "stale_not_explained_by_model": n_unexplained,
         "shrunk_forms": shrunk_keys,
         "decision_mismatches": n_dec_mismatch,
+        "builds_whose_command_is_not_the_heading_command": n_uncovered,
         "invocations_under_partial_theorem_hypotheses": n_hyp_checked,
         "traces_validated_against_impl": len(results),
         "model_evaluations": model.calls,
